@@ -2,14 +2,17 @@
   C02 — JSON round trip of a HUGR is lossless and a fixed point.
 
   Model: `Serial.lean` (`toSerial`, `fromSerial`, `encDoc`, `decDoc`; mirrors `Hugr._to_serial`,
-  `_from_serial`, `SerialHugr` dump/parse).  FULL STATEMENT (not yet proved end to end, kept as a
-  `def`): `JsonFixedPoint`.  Proved so far: the document layer is lossless (`doc_roundtrip`), port
-  offsets map back exactly (`offset_roundtrip`), metadata entries map back (`meta_roundtrip`), the
-  edge loop re-adds one link per edge in order (`loadEdges_links`), and the hierarchy/order facts
-  shared with C03/C08 (`Props.C03.index_sane_nodes`, `Props.C08.links_embedded`).
+  `_from_serial`, `SerialHugr` dump/parse).  FULL STATEMENT: `JsonFixedPoint`, proved for every
+  reachable store and every lawful operation codec (`json_fixed_point`); the document layer is
+  lossless (`doc_roundtrip`), port offsets map back exactly (`offset_roundtrip`), metadata entries
+  map back (`meta_roundtrip`), the edge loop re-adds one link per edge in order (`loadEdges_links`),
+  loading a document in normal form and saving it again is the identity (`load_save_identity`), and
+  the reloaded HUGR is walked in index order (`reloaded_in_index_order`).
 -/
 import HugrVerif.Proofs.Serial
+import HugrVerif.Proofs.SerialNormal
 import HugrVerif.SerialCodecs
+import HugrVerif.Props.C03
 
 namespace HugrVerif.Props.C02
 open HugrVerif HugrVerif.Store HugrVerif.Serial HugrVerif.Py
@@ -154,6 +157,61 @@ theorem loadEdges_links (c : OpCodec Ω) : ∀ (es : List Edge) (s s' : St Ω), 
           refine ⟨((e.src, so), (e.dst, d_)) :: ls, ?_, ?_, cinv⟩
           · simp [loadedLinks, h1, h2, h3, liftS, a]
           · rw [b, e1]; simp
+
+/-! ### the fixed point -/
+
+/-- The labelled codec of the raw store histories is lawful (decoding returns the label itself). -/
+theorem labelCodec_laws : CodecLaws labelCodec id := by
+  refine ⟨?_, ?_, fun _ _ => rfl, ?_⟩
+  · intro op p j h
+    simp only [labelCodec] at h ⊢
+    by_cases h1 : op = "module"
+    · subst h1; simp at h; subst h; simp [fld]
+    · by_cases h2 : op = "const"
+      · subst h2; simp at h; subst h; simp [fld]
+      · simp [h1, h2] at h; subst h; simp [fld]
+  · intro op p j h; exact h
+  · intro op p j _ inc
+    simp only [labelCodec]
+    by_cases h : op = "module" ∨ op = "const"
+    · exact ⟨none, by simp [h]⟩
+    · exact ⟨some labelPorts, by simp [h]⟩
+
+/-- **Loading a document in normal form and saving it again is the identity** (nodes, edges with
+    their offsets, metadata). -/
+theorem load_save_identity (c : OpCodec Ω) (d : Doc) (opOf : Nat → Ω) (parOf : Nat → Nat)
+    (ordOf : Nat → Bool → Option Nat) (hn : NormalDoc c d opOf parOf ordOf) :
+    ∃ s', fromSerial c d = .ok s' ∧
+      ∃ d', toSerial c s' = .ok d' ∧ d'.nodes = d.nodes ∧ d'.edges = d.edges ∧ d'.metadata = d.metadata :=
+  fromSerial_toSerial' c d opOf parOf ordOf hn
+
+/-- **A reloaded HUGR is walked in index order**: when every parent index is smaller than the
+    child's and children are listed by increasing index, `_hierarchy_order` is `0, 1, …, n-1`. -/
+theorem reloaded_in_index_order (s : St Ω) (n : Nat) (parOf : Nat → Nat) (hn : 0 < n)
+    (hroot : s.root = 0) (hlen : s.nodes.length = n) (hpar : ∀ k, 0 < k → k < n → parOf k < k)
+    (hnode : ∀ m, m < n → ∃ dm, getNode s m = .ok dm ∧ childIdxs dm = kids n parOf m) :
+    hierarchyOrder s = .ok (List.range n) :=
+  hierarchyOrder_range s n parOf hn hroot hlen hpar hnode
+
+/-- **JSON fixed point** for every HUGR reachable through the mutators (C04 `Reach`) and every lawful
+    operation codec: whenever `_to_serial` succeeds, loading the document succeeds and serialising
+    the loaded HUGR gives the same nodes, edges and metadata.  `hcover`: the hierarchy walk lists
+    every live node (all nodes hang under the root). -/
+theorem json_fixed_point [Inhabited Ω] (rootOp : Ω) (m : Meta) (s : St Ω) (hr : C04.Reach rootOp m s)
+    (c : OpCodec Ω) (nrm : Ω → Ω) (laws : CodecLaws c nrm)
+    (order : List Nat) (hl : hierLoop s (s.nodes.length + 1) [s.root] [] [] = .ok order)
+    (hcover : ∀ i ∈ liveNodes s, i ∈ order) : JsonFixedPoint c s := by
+  intro d hd
+  obtain ⟨a, b, cc⟩ := C03.index_sane_nodes rootOp m s hr order hl
+  have ho : hierarchyOrder s = .ok order := by
+    unfold hierarchyOrder
+    rw [hl]
+    have : (liveNodes s).filter (fun i => !order.contains i) = [] := by
+      apply List.filter_eq_nil_iff.mpr
+      intro i hi
+      simp [hcover i hi]
+    simp only [this, List.append_nil]
+  exact Serial.json_fixed_point c nrm laws s order ho a b cc d hd
 
 /-- Non-vacuity / regression: a store with an order link, a multi-link, metadata and a reused
     index is a fixed point of the model's JSON round trip. -/
